@@ -17,7 +17,13 @@ inline Plan Gen(uint64_t seed)
    Rng cfg(seed, "config"), wl(seed, "workload");
    Plan p;
    const int clients = 1 + (int) cfg.below(4), submitters = 1 + (int) cfg.below(3), maxThreads = 1 + (int) cfg.below(3);
-   p.push_back("cfg prop=C19 maxthreads=" + I(maxThreads) + " clients=" + I(clients) + " early=" + I(cfg.oneIn(3)) + " handleryields=" + I(cfg.below(3)) + thrc::SchedCfgStr(cfg));
+   const int early = cfg.oneIn(3) ? 1 : 0;
+   const std::string sched = thrc::SchedCfgStr(cfg);
+   // lf=<k>: the k-th thread launch of the pool fails once (fault: failing thread creation, through the documented virtual ThreadPool::StartInternalThread()); -1 = never
+   // latewait=1 (early shutdown only): one extra thread is blocked in UnregisterClient() while the pool is shut down underneath it (ThreadPool::Shutdown() wakes such waiters)
+   const int lf = cfg.oneIn(6) ? (int) cfg.below(3) : -1;
+   const int lateWait = ((early)&&(cfg.oneIn(2))) ? 1 : 0;
+   p.push_back("cfg prop=C19 maxthreads=" + I(maxThreads) + " clients=" + I(clients) + " early=" + I(early) + " handleryields=" + I(cfg.below(3)) + " lf=" + I(lf) + " latewait=" + I(lateWait) + sched);
    for (int s=1; s<=submitters; s++)
    {
       std::string x = "prog " + I(s); const int n = 1 + (int) wl.below(6);
@@ -68,6 +74,21 @@ public:
    int _idx;
 };
 
+// fault seam: the pool's documented launch hook; the k-th launch fails once
+class FaultyPool : public ThreadPool
+{
+public:
+   FaultyPool(uint32 maxThreads, int failAt) : ThreadPool(maxThreads), _failAt(failAt), _launches(0), _fired(false) {}
+   int _failAt, _launches; bool _fired;
+   uint32 ShutdownNow() {return ((::muscle::AbstractObjectRecycler *) this)->FlushCachedObjects();}   // = ThreadPool::Shutdown(), the call ~ThreadPool and the global flush make
+protected:
+   virtual status_t StartInternalThread(Thread & t)
+   {
+      if ((_failAt >= 0)&&(_launches++ == _failAt)) {_fired = true; g_sh->res->stats.inc("f.thread_launch_failure"); return B_ERROR("injected thread launch failure");}
+      return ThreadPool::StartInternalThread(t);
+   }
+};
+
 inline void WarmupStatics()
 {
    // a pool's threads use messaging sockets; construct the statics they touch (single-threaded: nothing is submitted)
@@ -89,7 +110,8 @@ inline void Exec(const Plan & plan, RunResult & res)
    {
       std::vector<Client *> cls;
       {
-         ThreadPool pool((uint32) sh.maxThreads);
+         const int lf = (int) cfg.i("lf", -1); const bool lateWait = (early)&&(cfg.i("latewait", 0) != 0);
+         FaultyPool pool((uint32) sh.maxThreads, lf);
          for (int i=0; i<nclients; i++) {cls.push_back(new Client(&pool, i)); sh.registered[i] = true; sh.unregisterReturned[i] = false;}
          if (getenv("VSIM_DEBUG_ADDR")) {void * probe = malloc(64); fprintf(stderr, "ADDR pool=%p client0=%p malloc64=%p stack=%p pid=%d allocated=%zu\n", (void *) &pool, (void *) cls[0], probe, (void *) &probe, (int) getpid(), __sanitizer_get_current_allocated_bytes()); free(probe);}
          Mutex clientOpLock;   // register/unregister/submit on ONE client object are serialised by the caller (an IThreadPoolClient is not itself thread-safe); different clients proceed in parallel
@@ -118,6 +140,9 @@ inline void Exec(const Plan & plan, RunResult & res)
                   }
                   else if (op[0] == 'U')
                   {
+                     // (after a failed thread launch a client's Messages stay pending until something else makes the pool dispatch again, so an unregister could
+                     //  legitimately wait for that: in launch-failure runs clients are only unregistered at the end, after the harness has made the pool dispatch once more)
+                     if (lf >= 0) {res.stats.inc("p.unregister_skipped_in_launch_failure_run"); continue;}
                      DECLARE_MUTEXGUARD(*perClient[(size_t) c]);
                      if (!sh.registered[c]) continue;
                      const std::vector<uint32> acceptedBefore = sh.accepted[c];
@@ -138,8 +163,32 @@ inline void Exec(const Plan & plan, RunResult & res)
                sh.submittersRunning--; });
          }
          thr::WaitUntil([&]() {return sh.submittersRunning == 0;});
+         pool._failAt = -1;   // the fault is transient: no further launch fails
+         Client * kick = NULL;
+         if ((pool._fired)&&(!early))
+         {
+            // one more submission by a client with nothing outstanding makes the pool dispatch again; from here on everything accepted must get handled
+            kick = new Client(&pool, 7); sh.registered[7] = true; sh.unregisterReturned[7] = false;
+            const uint32 w = 7000000; if (kick->SendMessageToThreadPool(GetMessageFromPool(w)).IsOK()) {sh.accepted[7].push_back(w); res.stats.inc("msgs_accepted");}
+            res.stats.inc("p.redispatch_after_launch_failure");
+         }
+         volatile bool lateDone = true;
+         if (lateWait)
+         {
+            // a thread that is (or soon will be) blocked in UnregisterClient() while the pool is shut down underneath it: Shutdown() must wake it
+            int victim = -1; for (int c=0; c<nclients; c++) if ((sh.registered[c])&&(victim < 0)) victim = c;
+            if (victim >= 0)
+            {
+               lateDone = false; res.stats.inc("p.unregister_concurrent_with_shutdown");
+               thr::Spawn([&, victim]() {
+                  if (sh.handled[victim].size() < sh.accepted[victim].size()) res.stats.inc("p.unregister_blocked_across_shutdown_possible");
+                  cls[(size_t) victim]->SetThreadPool(NULL);   // returns either because everything was handled or because the pool was shut down
+                  sh.registered[victim] = false; lateDone = true; });
+            }
+         }
          if (!early)
          {
+            if (kick) {kick->SetThreadPool(NULL); if ((sh.handled[7].size() < sh.accepted[7].size())||(sh.inHandler[7] != 0)) thr::ReportAndExit("unregister_returned_early", "UnregisterClient of the re-dispatch helper client returned with its Message unhandled"); sh.registered[7] = false;}
             for (int c=0; c<nclients; c++) if (sh.registered[c])
             {
                cls[(size_t) c]->SetThreadPool(NULL);
@@ -148,7 +197,13 @@ inline void Exec(const Plan & plan, RunResult & res)
             }
          }
          else {res.stats.inc("p.shutdown_with_registered_clients"); if (sh.concurrent > 0) res.stats.inc("p.shutdown_with_handlers_running"); size_t out = 0; for (int c=0; c<nclients; c++) out += sh.accepted[c].size() - sh.handled[c].size(); if (out > 0) res.stats.inc("p.shutdown_with_messages_outstanding");}
+         if (lateWait)
+         {
+            (void) pool.ShutdownNow();                        // what ~ThreadPool does first; the object itself must outlive the thread that is still inside UnregisterClient()
+            thr::WaitUntil([&]() {return (bool) lateDone;});   // a waiter that Shutdown() failed to wake shows up here as a deadlock
+         }
          for (auto m : perClient) delete m;
+         delete kick;
       }  // ~ThreadPool: shutdown, joins its threads; must return (deadlock detector / step cap)
       sh.poolGone = true;
       for (int c=0; c<nclients; c++) if (sh.inHandler[c] != 0) thr::ReportAndExit("handler_running_after_shutdown", "the pool's shutdown returned while a handler of client " + I(c) + " was still running");
